@@ -86,7 +86,8 @@ Definition dirtied (e : entry) : option addr :=
 (** non-store transaction state that is journaled: logs, refund counter, access list *)
 Record aux_t := { logs : Z; refund : Z; al : addr -> bool; als : addr -> key -> bool }.
 
-Record cfg := { repaired : bool; maxc : Z (* maxMultistoreCacheCount *) }.
+Record cfg := { repaired : bool; maxc : Z (* maxMultistoreCacheCount *);
+                blocked : list addr (* module accounts the bank refuses to credit *) }.
 
 (** one observation of the two balance views: (address, StateDB.GetBalance wei, bank unibi on the current ctx) *)
 Definition obs := (Z * Z * Z)%type.
@@ -340,7 +341,32 @@ Definition commit_cache (s : sdb) : sdb :=
   let c' := flush_store skip s (cur_store s) in
   with_cache (with_dirt (with_objs s (flush_objs s)) (flush_dirt s)) (Some c').
 
-(** Commit: write the cache branch to the tx store, then commitCtx(evmTxCtx, final) *)
+(** commitCtx can FAIL: SetAccount of a dirty blocked module account whose balance must grow mints
+    the difference and is then refused by the bank (SendCoinsFromModuleToAccount to a blocked
+    address).  commitCtx walks the dirty addresses in sorted order and returns at the first error:
+    the addresses before it are written, it and the later ones are not. *)
+Definition fails_at (s : sdb) (a : addr) : bool :=
+  match dirt s a, lookup s a with
+  | Some _, Some o => negb (suicided o) && (bank_bal (cur_store s) a <? to_native (bal o))
+  | _, _ => false
+  end.
+Definition flush_fail (s : sdb) : option addr := find (fails_at s) (blocked (cf s)).
+
+(** CommitCacheCtx returning an error at address [af]: the prefix is flushed *)
+Definition commit_cache_partial (af : addr) (s : sdb) : sdb :=
+  let skip := negb (repaired (cf s)) in
+  let c := cur_store s in
+  let c' := flush_store skip s c in
+  with_cache
+    (with_dirt (with_objs s (fun a => if a <? af then flush_objs s a else objs s a))
+               (fun a => if a <? af then flush_dirt s a else dirt s a))
+    (Some {| accs := fun a => if a <? af then accs c' a else accs c a;
+             stor := fun a k => if a <? af then stor c' a k else stor c a k |}).
+
+(** Commit: write the cache branch to the tx store, then commitCtx(evmTxCtx, final); it returns an
+    error (the transaction fails) exactly when [commit_fails] *)
+Definition commit_fails (s : sdb) : bool := match flush_fail s with Some _ => true | None => false end.
+
 Definition commit (s : sdb) : store :=
   let skip := if repaired (cf s) then (match cache s with None => true | Some _ => false end) else true in
   flush_store skip s (cur_store s).
@@ -428,8 +454,12 @@ Definition precompile_call (s : sdb) (sends : list (addr * addr * Z)) (fails : b
   let s1 := precompile_snapshot s in
   if maxc (cf s) <? calls s1 then unwind n s1          (* OnRunStart error: frame reverted *)
   else
-    let s2 := run_sends sends (commit_cache s1) in
-    if fails then unwind n s2 else s2.
+    match flush_fail s1 with
+    | Some af => unwind n (commit_cache_partial af s1) (* the pre-run flush failed: frame reverted *)
+    | None =>
+        let s2 := run_sends sends (commit_cache s1) in
+        if fails then unwind n s2 else s2
+    end.
 
 Fixpoint run (p : prog) (s : sdb) {struct p} : sdb :=
   match p with
@@ -473,17 +503,23 @@ Record rstate := {
   r_stor : addr -> key -> word;
   r_aux : aux_t;
   r_wr : addr -> bool;      (* ghost: storage of the address written in this tx (used by wf only) *)
-  r_calls : Z
+  r_calls : Z;
+  r_base : addr -> Z;       (* unibi balance the bank held when the EVM state was last written to it
+                               (tx start / last successful precompile call); consulted for blocked accounts *)
+  r_bl : list addr          (* the blocked accounts (constant) *)
 }.
 
 Definition r_get (r : rstate) a : racct :=
   match r_accs r a with Some x => x | None => {| rb := 0; rn := 0; rc := 0; rs := false |} end.
 Definition r_set (r : rstate) a (x : racct) : rstate :=
-  {| r_accs := upd (r_accs r) a (Some x); r_stor := r_stor r; r_aux := r_aux r; r_wr := r_wr r; r_calls := r_calls r |}.
+  {| r_accs := upd (r_accs r) a (Some x); r_stor := r_stor r; r_aux := r_aux r; r_wr := r_wr r; r_calls := r_calls r;
+     r_base := r_base r; r_bl := r_bl r |}.
 Definition r_with_aux (r : rstate) x : rstate :=
-  {| r_accs := r_accs r; r_stor := r_stor r; r_aux := x; r_wr := r_wr r; r_calls := r_calls r |}.
+  {| r_accs := r_accs r; r_stor := r_stor r; r_aux := x; r_wr := r_wr r; r_calls := r_calls r;
+     r_base := r_base r; r_bl := r_bl r |}.
 Definition r_with_calls (r : rstate) n : rstate :=
-  {| r_accs := r_accs r; r_stor := r_stor r; r_aux := r_aux r; r_wr := r_wr r; r_calls := n |}.
+  {| r_accs := r_accs r; r_stor := r_stor r; r_aux := r_aux r; r_wr := r_wr r; r_calls := n;
+     r_base := r_base r; r_bl := r_bl r |}.
 Definition rw_b (x : racct) b := {| rb := b; rn := rn x; rc := rc x; rs := rs x |}.
 Definition rw_n (x : racct) n := {| rb := rb x; rn := n; rc := rc x; rs := rs x |}.
 Definition rw_c (x : racct) c := {| rb := rb x; rn := rn x; rc := c; rs := rs x |}.
@@ -495,6 +531,19 @@ Definition r_send (r : rstate) (f t : addr) (amt : Z) : rstate :=
   else
     let r1 := r_set r f (rw_b (r_get r f) (to_wei (to_native (rb (r_get r f)) - amt))) in
     r_set r1 t (rw_b (r_get r1 t) (to_wei (to_native (rb (r_get r1 t)) + amt))).
+
+(** the pre-run flush of a precompile call would fail: some blocked account must be credited *)
+Definition r_pending (r : rstate) : bool :=
+  existsb (fun a => match r_accs r a with
+                    | Some x => negb (rs x) && (r_base r a <? to_native (rb x))
+                    | None => false end) (r_bl r).
+(** a successful flush: the bank now holds what the EVM shows *)
+Definition r_flush (r : rstate) : rstate :=
+  {| r_accs := r_accs r; r_stor := r_stor r; r_aux := r_aux r; r_wr := r_wr r; r_calls := r_calls r;
+     r_base := fun a => match r_accs r a with
+                        | Some x => if rs x then 0 else to_native (rb x)
+                        | None => 0 end;
+     r_bl := r_bl r |}.
 
 Definition r_access_addr (r : rstate) a : rstate :=
   r_with_aux r (w_al (r_aux r) (upd (al (r_aux r)) a true)).
@@ -509,7 +558,8 @@ Fixpoint rrun (mx : Z) (p : prog) (r : rstate) {struct p} : rstate :=
       let r1 := r_set r a (r_get r a) in
       {| r_accs := r_accs r1;
          r_stor := fun a' k' => if Z.eqb a' a && Z.eqb k' k then v else r_stor r a' k';
-         r_aux := r_aux r; r_wr := upd (r_wr r) a true; r_calls := r_calls r |}
+         r_aux := r_aux r; r_wr := upd (r_wr r) a true; r_calls := r_calls r;
+         r_base := r_base r; r_bl := r_bl r |}
   | OSuicide a b =>
       match r_accs r a with
       | None => r
@@ -538,19 +588,21 @@ Fixpoint rrun (mx : Z) (p : prog) (r : rstate) {struct p} : rstate :=
   | PPrecompile sends fails =>
       let r0 := r_with_calls r (r_calls r + 1) in
       if mx <? r_calls r0 then r0
+      else if r_pending r0 then r0
       else
-        let r' := fold_left (fun r x => r_send r (fst (fst x)) (snd (fst x)) (snd x)) sends r0 in
+        let r' := fold_left (fun r x => r_send r (fst (fst x)) (snd (fst x)) (snd x)) sends (r_flush r0) in
         if fails then r0 else r'
   end.
 
 Definition rrun_body mx (body : list prog) (r : rstate) : rstate :=
   (fix go (l : list prog) (r : rstate) : rstate := match l with [] => r | p :: t => go t (rrun mx p r) end) body r.
 
-Definition r_init (t : store) : rstate :=
+Definition r_init (bl : list addr) (t : store) : rstate :=
   {| r_accs := fun a => match accs t a with
                         | Some x => Some {| rb := to_wei (a_bal x); rn := a_nonce x; rc := a_code x; rs := false |}
                         | None => None end;
-     r_stor := stor t; r_aux := aux0; r_wr := fun _ => false; r_calls := 0 |}.
+     r_stor := stor t; r_aux := aux0; r_wr := fun _ => false; r_calls := 0;
+     r_base := bank_bal t; r_bl := bl |}.
 
 (** what the reference commits: self-destructed accounts disappear with their storage, wei -> unibi *)
 Definition r_final (r : rstate) : store :=
@@ -566,7 +618,8 @@ Definition r_final (r : rstate) : store :=
 
 (** ---- well-formed scripts (checked along the reference run) ----
     - a bank send of a precompile body does not involve an account that self-destructed earlier
-      in the transaction;
+      in the transaction, nor a blocked module account (the bank refuses those);
+    - no code is set on and no self-destruct is made of a blocked module account;
     - evm.create on an existing, non-colliding account only if that account has not
       self-destructed and has had no storage written in this transaction (the EVM cannot
       produce either: the address would have needed code to run). *)
@@ -576,21 +629,26 @@ Definition wf_create (r : rstate) (a : addr) : bool :=
   | Some x => if negb (Z.eqb (rn x) 0) || negb (Z.eqb (rc x) 0) then true
               else negb (rs x) && negb (r_wr r a)
   end.
+Definition is_bl (r : rstate) (a : addr) : bool := existsb (Z.eqb a) (r_bl r).
 Definition wf_send (r : rstate) (x : addr * addr * Z) : bool :=
-  negb (rs (r_get r (fst (fst x)))) && negb (rs (r_get r (snd (fst x)))).
+  negb (rs (r_get r (fst (fst x)))) && negb (rs (r_get r (snd (fst x)))) &&
+  negb (is_bl r (fst (fst x))) && negb (is_bl r (snd (fst x))).
 
 Fixpoint wf (mx : Z) (p : prog) (r : rstate) {struct p} : bool :=
   match p with
   | OCreate a => wf_create r a
+  | OSetCode a _ => negb (is_bl r a)          (* module accounts carry no code hash *)
+  | OSuicide a _ => negb (is_bl r a)          (* … and cannot be deleted by the EVM keeper *)
   | PFrame body _ =>
       (fix go (l : list prog) (r : rstate) : bool :=
          match l with [] => true | p :: t => wf mx p r && go t (rrun mx p r) end) body r
   | PPrecompile sends _ =>
       let r0 := r_with_calls r (r_calls r + 1) in
       if mx <? r_calls r0 then true
+      else if r_pending r0 then true
       else (fix go (l : list (addr * addr * Z)) (r : rstate) : bool :=
               match l with [] => true
-              | x :: t => wf_send r x && go t (r_send r (fst (fst x)) (snd (fst x)) (snd x)) end) sends r0
+              | x :: t => wf_send r x && go t (r_send r (fst (fst x)) (snd (fst x)) (snd x)) end) sends (r_flush r0)
   | _ => true
   end.
 
